@@ -92,6 +92,12 @@ class NativeCastWorld:
         m(r'^(laythe_core::)?(hooks::)?Hooks::get_class$', lambda e_, a, c: AbsObj(z3.BitVec(e_.fresh_name('class'), 64), 'ObjRef<Class>'))
         e.allow_havoc(r'^(std|alloc|core)::fmt::', r'Arguments::', r'^format$', r'^must_use$', r'^<.* as (std::string::|alloc::string::)?ToString>::to_string$',
                       r'^(std::string::|alloc::string::)?String::\w+$', r'^<(std::string::|alloc::string::)?String as .*>::\w+$')
+        # leaf functions of the standard library that never see a Laythe object: summarised by an arbitrary result
+        e.allow_havoc(r'^(core::)?str::<impl str>::\w+$', r'^(core::)?f64::<impl f64>::\w+$', r'^(std::path::)?Path(Buf)?::\w+$', r'^<(std::path::)?PathBuf as .*>::\w+$',
+                      r'^laythe_env::', r'^thread_rng$', r'^<.*Rng.*>::\w+$', r'^<(std::str::|core::str::)?(Chars|CharIndices|Split\w*) as .*>::\w+$',
+                      r'^<(std::vec::|alloc::vec::)?IntoIter as (std::iter::|core::iter::)?Iterator>::\w+$', r'^(std::fs::|fs::)\w+$',
+                      r'^<dyn (std::io::)?(Write|Read) as .*>::\w+$', r'^(std::time::|core::time::)?Duration::\w+$')
+        m(r'^(std::boxed::|alloc::boxed::)?Box::new$', lambda e_, a, c: a[0])
         # instance fields: one row per instance identity, so that a test of a field and a later read of it see the same value
         from .vmabs import AbsArr, object_of
 
